@@ -485,9 +485,11 @@ std::size_t dataframe::read_xrff(std::istream &in)
 ///
 /// \param[in] doc object containing the xrff file
 /// \param[in] p   additional, optional, parameters (see `params` structure)
-/// \return        number of lines parsed (0 in case of errors)
+/// \return        number of lines parsed
 ///
-/// \exception exception::data_format wrong data format for data file
+/// \exception exception::data_format       wrong data format for data file
+/// \exception exception::insufficient_data the examples read don't pass the
+///                                         consistency check (`is_valid()`)
 ///
 /// An XRFF (eXtensible attribute-Relation File Format) file describes a list
 /// of instances sharing a set of attributes.
@@ -608,7 +610,11 @@ std::size_t dataframe::read_xrff(tinyxml2::XMLDocument &doc, const params &p)
   else
     throw exception::data_format("Missing `instances` element in XRFF file");
 
-  return is_valid() ? size() : static_cast<std::size_t>(0);
+  // As for CSV files, an inconsistent dataset isn't handed over to the caller.
+  if (!is_valid())
+    throw exception::insufficient_data("Inconsistent XRFF data file");
+
+  return size();
 }
 
 ///
